@@ -47,7 +47,7 @@ func (d dressedErr) Is(t error) bool {
 func (d dressedErr) Unwrap() error { return d.as }
 
 // writeErrKinds are cycled through by the write-failure runs.
-var writeErrKinds = []error{errInjected, dressedErr{context.Canceled}, dressedErr{context.DeadlineExceeded}, dressedErr{io.ErrClosedPipe}, dressedErr{io.EOF}, dressedErr{syscall.EPIPE}}
+var writeErrKinds = []error{errInjected, dressedErr{context.Canceled}, dressedErr{context.DeadlineExceeded}, dressedErr{io.ErrClosedPipe}, dressedErr{io.EOF}, dressedErr{syscall.EPIPE}, dressedErr{syscall.EINTR}, dressedErr{syscall.EAGAIN}}
 
 // writeErr is what a failing wrec returns.
 var writeErr error = errInjected
